@@ -33,6 +33,12 @@ func vfFreeRun(w *vfWorld, prop string) {
 	cfg.Store = vfPick(t, "free.store", []string{"cookie", "redis"})
 	cs.Store = cfg.Store
 	cfg.CookieRefresh, cfg.CookieExpire = 10*time.Minute, 12*time.Hour
+	if prop == "C03" || prop == "C05" {
+		// the login protocol's own state (CSRF cookies, nonces, PKCE verifiers) is produced and checked concurrently
+		cfg.CSRFPerRequest = t.Bool("free.perreq")
+		cfg.EncodeState = t.Bool("free.encode")
+		cfg.PKCE = vfPick(t, "free.pkce", []string{"", "S256", "plain"})
+	}
 	cfg.Mut = vfExposeAll
 	idp := w.StartIdP()
 	idp.IDTokenTTL, idp.AccessTTL = 100*time.Hour, 100*time.Hour
